@@ -105,7 +105,7 @@ func runC36(c *core.Ctx) {
 		opt := &host.Options{Config: host.DefaultConfig, KeepPrograms: true}
 		var o host.Outcome
 		if t.tx {
-			o = h.RunTx(t.eng, t.src, nil, []common.Address{host.Addr(1)}, opt)
+			o = h.RunTx(t.eng, t.src, nil, signersFor(t.src), opt)
 		} else {
 			o = h.RunScript(t.eng, t.src, nil, opt)
 		}
